@@ -33,8 +33,8 @@ func c01Roots(c *core.Ctx) []*ssa.Function {
 
 // c01OutsideState: fields read inside the consensus closure and written outside it, with the reason each is a function of the chain.
 var c01OutsideState = map[string]string{
-	"consensus.DPoVP.am":           "pointer set at construction; the writes seen are calls through it into the account manager, which is re-based on the parent state before every block (executor-state rule)",
-	"consensus.DPoVP.dm":           "pointer set at construction; the writes seen are calls through it into the deputy manager, whose only state read here is termList (next entry)",
+	"consensus.DPoVP.am":          "pointer set at construction; the writes seen are calls through it into the account manager, which is re-based on the parent state before every block (executor-state rule)",
+	"consensus.DPoVP.dm":          "pointer set at construction; the writes seen are calls through it into the deputy manager, whose only state read here is termList (next entry)",
 	"deputynode.Manager.termList": "appended by SaveSnapshot from stable snapshot blocks only (C10.5): a function of the chain; a node that does not have the term yet fails with ErrNoStableTerm instead of answering differently",
 }
 
